@@ -43,6 +43,9 @@ def job(slot, spec):
     note = ''
     if patch:
         a = sh('git', '-C', r, 'apply', os.path.abspath(patch))
+        if a.returncode:      # the patch was cut against an older HEAD: merge it
+            a = sh('git', '-C', r, 'apply', '--3way', os.path.abspath(patch))
+            sh('git', '-C', r, 'reset', '-q')
         if a.returncode:
             return '%s: PATCH DOES NOT APPLY' % spec
         t = sh('/venv/bin/python', '-m', 'pytest', '-q', '-p', 'no:cacheprovider', '--timeout=900', cwd=r,
